@@ -174,7 +174,7 @@ fn expr(x: &mut Expr, cx: Cx, st: &mut St, stmt_top: bool, in_tuple: bool, last:
             expr(a, op, st, false, false, false);
             expr(b, op, st, false, false, false);
         }
-        EKind::Neg(a) | EKind::Not(a) | EKind::Field(a, _) | EKind::TupleIdx(a, _) | EKind::MaybeJust(a) => {
+        EKind::Neg(a) | EKind::Not(a) | EKind::Field(a, _) | EKind::TupleIdx(a, _) | EKind::MaybeJust(a) | EKind::Mark(a) => {
             expr(a, op, st, false, false, false)
         }
         EKind::If(bs, d) => {
